@@ -14,19 +14,10 @@ SHIMMED = [
     "stores/replicator/replication_info.go",
     "stores/eventlogstore/index.go", "stores/kvstore/index.go", "stores/documentstore/index.go",
 ]
-# files of the go-ipfs-log dependency (module cache): the log's own lock, so that every call into the log
-# (Append, Join, Values, Heads, Len, ...) is a schedule point too (VERIF_SHIM_LOG=1)
-LOGDIR = ""
-if os.environ.get("VERIF_SHIM_LOG"):
-    import subprocess
-    LOGDIR = subprocess.run(["go", "list", "-m", "-f", "{{.Dir}}", "berty.tech/go-ipfs-log"], cwd="/repo",
-                            capture_output=True, text=True, env=dict(os.environ, GOFLAGS="-mod=mod", GOPROXY="off", GOSUMDB="off", GOTOOLCHAIN="local")).stdout.strip()
 os.makedirs(out, exist_ok=True)
 rep = dict(base.get("Replace", {}))
 n = 0
 targets = ["/repo/" + rel for rel in SHIMMED]
-if LOGDIR:
-    targets += [LOGDIR + "/log.go", LOGDIR + "/entry/entry_map.go"]
 for real in targets:
     rel = real.replace("/repo/", "").lstrip("/")
     src = rep.get(real, real)
